@@ -33,12 +33,14 @@ func Corrupt(rng *rand.Rand, b, other []byte, allowHuge bool) Corruption {
 			}
 			at := rng.Intn(len(b))
 			out := cp()
-			switch rng.Intn(4) {
-			case 0:
+			switch r := rng.Intn(4); {
+			case r == 0:
 				out[at] = 0
-			case 1:
+			case !allowHuge:
+				out[at] ^= 1 << uint(rng.Intn(3))
+			case r == 1:
 				out[at] = 0xff
-			case 2:
+			case r == 2:
 				out[at] ^= 1 << uint(rng.Intn(8))
 			default:
 				out[at] = byte(rng.Intn(256))
@@ -83,7 +85,13 @@ func Corrupt(rng *rand.Rand, b, other []byte, allowHuge bool) Corruption {
 			at := rng.Intn(len(b) + 1)
 			n := 1 + rng.Intn(4)
 			ins := make([]byte, n)
-			rng.Read(ins)
+			if allowHuge {
+				rng.Read(ins)
+			} else {
+				for i := range ins {
+					ins[i] = byte(rng.Intn(4))
+				}
+			}
 			out := append(append(cp()[:at:at], ins...), b[at:]...)
 			return Corruption{"insert", fmt.Sprintf("%d bytes at %d", n, at), out}
 		case 8:
@@ -95,27 +103,36 @@ func Corrupt(rng *rand.Rand, b, other []byte, allowHuge bool) Corruption {
 			out := append(cp()[:at:at], b[at+n:]...)
 			return Corruption{"delete", fmt.Sprintf("%d bytes at %d", n, at), out}
 		default:
-			return RandomBytes(rng)
+			return RandomBytes(rng, allowHuge)
 		}
 	}
 }
 
-// RandomBytes is an unstructured random string (short, small-valued bytes are favoured so
-// that length prefixes stay plausible).
-func RandomBytes(rng *rand.Rand) Corruption {
-	n := rng.Intn(48)
-	out := make([]byte, n)
-	for i := range out {
-		switch rng.Intn(3) {
-		case 0:
-			out[i] = 0
-		case 1:
-			out[i] = byte(rng.Intn(8))
+// RandomBytes is an unstructured random string. It is assembled from pieces (small
+// little-endian u32s, small single bytes, zero runs and, when wild, arbitrary bytes) so that
+// length prefixes stay plausible often enough for decoders to get past the first field.
+func RandomBytes(rng *rand.Rand, wild bool) Corruption {
+	var out []byte
+	pieces := rng.Intn(12)
+	for i := 0; i < pieces; i++ {
+		switch r := rng.Intn(20); {
+		case r < 9:
+			var u [4]byte
+			binary.LittleEndian.PutUint32(u[:], uint32(rng.Intn(7)))
+			out = append(out, u[:]...)
+		case r < 14:
+			out = append(out, byte(rng.Intn(6)))
+		case r < 16:
+			out = append(out, make([]byte, 1+rng.Intn(4))...)
+		case wild:
+			b := make([]byte, 1+rng.Intn(6))
+			rng.Read(b)
+			out = append(out, b...)
 		default:
-			out[i] = byte(rng.Intn(256))
+			out = append(out, byte(rng.Intn(256)), 0, 0)
 		}
 	}
-	return Corruption{"random", fmt.Sprintf("%d bytes", n), out}
+	return Corruption{"random", fmt.Sprintf("%d bytes", len(out)), out}
 }
 
 func minInt(a, b int) int {
